@@ -67,8 +67,9 @@ def resolved(f: Func, e: ast.expr) -> ast.expr:
     return norm.subst(e, single_defs(f))
 
 
-def reaching_defs(f: Func, g, at: ast.AST, name: str) -> List[ast.stmt]:
-    """Assignments `name = ...` (or for-targets binding name) from which `at` is reachable without passing another def."""
+def reaching_defs(f: Func, g, at: ast.AST, name: str, within: Optional[Set[int]] = None) -> List[ast.stmt]:
+    """Assignments `name = ...` (or for-targets binding name) from which `at` is reachable without passing another def.
+    With `within` (a set of CFG node ids, e.g. what is reachable from a branch): only definitions among those nodes, if there are any."""
     defs = []
     for n in own_nodes(f.node):
         if isinstance(n, ast.Assign) and any(norm.is_name(t, name) for t in n.targets):
@@ -85,6 +86,8 @@ def reaching_defs(f: Func, g, at: ast.AST, name: str) -> List[ast.stmt]:
             continue
         if g.path_avoiding(i, {tgt}, set(ids) - {i}) is not None:
             out.append(d)
+    if within is not None and any(g.node_of(d).id in within for d in out):
+        out = [d for d in out if g.node_of(d).id in within]
     return out
 
 
